@@ -270,3 +270,78 @@ def lock_cases(thorough: bool) -> list[dict]:
                 for off in (0, 1, 2):
                     cases.append({"variant": variant, "suppress": sup, "wait": False, "ci": 0, "outage": [off, None]})
     return cases
+
+
+# ------------------------------------------------------------------------------------------------ the body of a lock block raises
+
+class BodyError(Exception):
+    """what the protected block of the harness raises itself"""
+
+
+def body_error_cases() -> list[dict]:
+    """how the caller got into the block x what the block raises.  `how`: acquired (key free) / ping_disabled (key held, the
+    PING command disabled: the probe answers None, the block runs unprotected) / down (key held, server unreachable, suppress on:
+    SET NX answers False, the probe raises, the block runs unprotected)"""
+    return [{"how": how, "raises": exc, "wait": wait}
+            for how in ("acquired", "ping_disabled", "down") for exc in ("interaction", "own") for wait in (False, True)]
+
+
+def run_body_error(drv, case: dict) -> dict:
+    async def go():
+        from cashews import Cache, Command
+        from cashews.exceptions import CacheBackendInteractionError
+
+        if drv.ask("reset 1") != "ok":
+            raise HarnessError("driver refused reset")
+        server = rs.LeanServer(drv)
+        down = [False]
+        server.down = lambda n: down[0]
+        server.max_calls = 2000
+        rs.unregister()
+        rs.register(server, "redis://verif:6379")
+        cache = Cache()
+        cache.setup("redis://verif:6379", suppress=True)
+        await cache.init()
+        if case["how"] != "acquired":
+            if not await cache.set_lock(LOCK_KEY, "somebody-else", 10):
+                raise HarnessError("could not pre-take the lock")
+        raised = CacheBackendInteractionError("from the block") if case["raises"] == "interaction" else BodyError("from the block")
+        entered = []
+
+        async def block():
+            async with cache.lock(LOCK_KEY, 10, wait=case["wait"], check_interval=0):
+                entered.append(True)
+                raise raised
+
+        async def attempt():
+            try:
+                if case["how"] == "ping_disabled":
+                    with cache.disabling(Command.PING):
+                        await block()
+                else:
+                    down[0] = case["how"] == "down"
+                    await block()
+                return "returned"
+            except BaseException as e:  # noqa: BLE001
+                return "same" if e is raised else f"{type(e).__name__}: {e}"
+
+        done, _ = await asyncio.wait({asyncio.ensure_future(attempt())}, timeout=WAITER_BUDGET)
+        out = done.pop().result() if done else "never-returned"
+        down[0] = False
+        return {"entered": len(entered), "outcome": out}
+
+    try:
+        return vtime.run(go)
+    finally:
+        rs.unregister()
+
+
+def judge_body_error(case: dict, rec: dict) -> dict | None:
+    if rec["entered"] == 1 and rec["outcome"] == "same":
+        return None
+    what = (f"async with cache.lock(...) entered {case['how']} (wait={case['wait']}), the block raises "
+            f"{'CacheBackendInteractionError' if case['raises'] == 'interaction' else 'its own exception'}: ")
+    if rec["entered"] != 1:
+        return {"kind": "property", "sig": None, "what": what + f"the block ran {rec['entered']}x, outcome {rec['outcome']}"}
+    return {"kind": "property", "sig": "D65:lock-body-error-becomes-runtimeerror" if rec["outcome"].startswith("RuntimeError") else None,
+            "what": what + f"out came {rec['outcome']} instead of the exception the block raised"}
